@@ -10,7 +10,7 @@ from vlib import tok, events
 
 class Run:
     def __init__(self, script_lines, rounds):
-        self.lines = [l for l in script_lines if l.strip() and not l.startswith("#") and not l.startswith("feat")]
+        self.lines = [l for l in script_lines if l.strip() and not l.startswith(("#", "feat", "mode"))]
         self.rounds = rounds
         self.ops = {}          # oid -> dict(kind, target, tmo, round, tick, hook(bool))
         self.kills = []        # (round, target actor, by_hook)
@@ -35,6 +35,8 @@ class Run:
                     nact += 1
             elif w[0] == "op":
                 o, k, sl, t = int(w[1]), w[2], int(w[3]), w[4]
+                if len(w) > 5 and w[5] == "d":
+                    t = "-"          # the deprecated aliases ignore their timeout
                 if o not in self.ops:
                     tgt = slots.get(sl)
                     self.ops[o] = dict(kind=k, target=tgt[1] if tgt and tgt[0] == "s" else None,
@@ -528,8 +530,10 @@ def m_C13(run):
         elif v == "recv":
             exp.append("d:%s:m%d:dropped:%s" % (a, o % 4, fam))
     got = list(run.rounds[L].get("D", []))
+    # labels are compared by operation family (blocking_tell ~ tell, blocking_ask ~ ask)
+    fam = lambda t: t.replace(":blocking_tell", ":tell").replace(":blocking_ask", ":ask")
     hookops = any(m["hook"] for m in run.ops.values())
-    if not hookops and sorted(exp) != sorted(got):
+    if not hookops and sorted(exp) != sorted(fam(t) for t in got):
         f.append("dead letters recorded %s but the failed operations imply %s" % (sorted(got), sorted(exp)))
     n = tok(run.rounds[L].get("DC", []), "n=")
     if n not in (None, "-") and int(n) != len(got):
